@@ -1003,6 +1003,8 @@ class Bytes(Construct):
         return f"(io.write(obj), obj)[1]"
 
     def _emitfulltype(self, ksy, bitwise):
+        if bitwise:
+            raise NotImplementedError
         return dict(size=self.length)
 
 
@@ -4294,6 +4296,8 @@ class Padded(Subconstruct):
         return f"({self.subcon._compilebuild(code)}, io.write({repr(self.pattern)}*(({self.length})-({self.subcon.sizeof()})) ))[0]"
 
     def _emitfulltype(self, ksy, bitwise):
+        if bitwise:
+            raise NotImplementedError
         return dict(size=self.length, type=self.subcon._compileprimitivetype(ksy, bitwise))
 
 
@@ -5069,6 +5073,8 @@ class FixedSized(Subconstruct):
         return f"restream_reading(io, {self.length}, lambda io: ({self.subcon._compileparse(code)}))"
 
     def _emitfulltype(self, ksy, bitwise):
+        if bitwise:
+            raise NotImplementedError
         return dict(size=repr(self.length).replace("this.",""), **self.subcon._compilefulltype(ksy, bitwise))
 
 
